@@ -781,4 +781,56 @@ theorem str_chunk_indep (f : VFlags) (v : Bool) (c : Bytes) (cs : List Bytes) :
   consumeStringChunks_inv f v cs c 0 f (fun _ => rfl)
 
 
+theorem decodeRune_nonascii_small (c : UInt8) (r : Bytes) (h0 : ¬ c.toNat < Utf8.runeSelf)
+    (h : (Utf8.decodeRune (c :: r)).2 ≤ 1) : (Utf8.decodeRune (c :: r)).1 = Utf8.runeError := by
+  unfold Utf8.decodeRune at h ⊢
+  simp only [h0, if_false] at h ⊢
+  cases hl : Utf8.leadInfo c.toNat with
+  | none => simp
+  | some t =>
+    obtain ⟨sz, lo, hi⟩ := t
+    simp only [hl] at h ⊢
+    cases r with
+    | nil => simp
+    | cons b1 rest1 =>
+      by_cases h1 : b1.toNat < lo ∨ hi < b1.toNat
+      · simp [h1]
+      · simp only [h1, if_false] at h ⊢
+        by_cases hs2 : sz = 2
+        · simp [hs2] at h
+        · simp only [hs2, if_false] at h ⊢
+          cases rest1 with
+          | nil => simp
+          | cons b2 rest2 =>
+            by_cases h2 : Utf8.isCont b2.toNat = true
+            · simp only [h2, Bool.not_true, Bool.false_eq_true, if_false] at h ⊢
+              by_cases hs3 : sz = 3
+              · simp [hs3] at h
+              · simp only [hs3, if_false] at h ⊢
+                cases rest2 with
+                | nil => simp
+                | cons b3 rest3 =>
+                  by_cases h3 : Utf8.isCont b3.toNat = true
+                  · simp [h3] at h
+                  · simp [h3]
+            · simp [h2]
+
+/-- The `default: panic("BUG: unhandled character")` arm of ConsumeStringResumable (decode.go:246) is unreachable:
+a rune of width ≤ 1 that is not an unescaped ASCII byte, not '"', not '\\' and not RuneError is a control
+character, which is the case the model's last branch reports as an invalid character. -/
+theorem strStep_default_unreachable (c : UInt8) (r1 : Bytes)
+    (hn : noEscape c = false) (hq : (c == 0x22) = false)
+    (h2 : ¬ (Utf8.decodeRune (c :: r1)).2 > 1)
+    (h5 : ((Utf8.decodeRune (c :: r1)).1 == 0x5C) = false)
+    (hre : ((Utf8.decodeRune (c :: r1)).1 == Utf8.runeError) = false) :
+    (Utf8.decodeRune (c :: r1)).1 < 0x20 := by
+  by_cases h0 : c.toNat < Utf8.runeSelf
+  · rw [Utf8.decodeRune_ascii c r1 h0] at h5 ⊢
+    simp only at h5 ⊢
+    simp [noEscape, UInt8.lt_iff_toNat_lt, UInt8.le_iff_toNat_le, ← UInt8.toNat_inj, Utf8.runeSelf] at hn hq h5 h0 ⊢
+    omega
+  · have := decodeRune_nonascii_small c r1 h0 (by omega)
+    simp [this] at hre
+
+
 end JsonV.Model.Resume
